@@ -125,7 +125,7 @@ def transformed(draw, base):
 
 @st.composite
 def _case(draw, texts):
-    src = draw(inputs.sources(kinds=("core", "core", "expr", "seed")))
+    src = draw(inputs.sources(kinds=("core", "core", "expr", "seed", "wide", "api")))
     base = src["src"].replace("\r\n", "\n")
     if has_multiline_string(base) or "\t" in base:
         base = "def a := 1\nif a > 0 then\n    print(a)\nelse\n    print(0)\n"
